@@ -88,7 +88,7 @@ def r1_r2_listener(ctx, fam):
     arms = {}
     for meth in METHODS + ['callback', 'no-such-method']:
         for own in (False, True):
-            run = Run(th.node, oracle=method_oracle(meth, own), max_iter=1,
+            run = run_function(th, ctx.model, oracle=method_oracle(meth, own), max_iter=1,
                       loop_iters={n.lineno: 1 for n in walk_own(th.node)
                                   if isinstance(n, (ast.While, ast.For,
                                                     ast.AsyncFor))})
@@ -394,9 +394,12 @@ def r6_token(ctx, fam):
                 ctx.check(bool(g), construct, 'a callback requires a room',
                           key='token-room', where=where(f, e.node))
             else:
-                ctx.check(cb is None or is_const(cb, None), construct,
-                          'no callback: token None', key='token-none',
-                          where=where(f, e.node))
+                none_param = isinstance(cb, ast.Name) and any(
+                    c.pol and U(run.expand(c.atom)) == '%s is None' % cb.id
+                    for c in p.conds)
+                ctx.check(cb is None or is_const(cb, None) or none_param,
+                          construct, 'no callback: token None',
+                          key='token-none', where=where(f, e.node))
             for k, want in (('event', 'event'), ('data', 'data'),
                             ('room', 'to or room'),
                             ('skip_sid', 'skip_sid'),
